@@ -32,10 +32,24 @@ Peek == /\ last' = IF q # <<>> THEN R("Peek", <<>>, <<Head(q), TRUE>>)
                                ELSE R("Peek", <<>>, <<Zero, FALSE>>)
         /\ UNCHANGED <<q, cap>>
 
-\* PushWithExpand never fails: a full ring doubles its capacity first.
-PushWithExpand(v) == /\ q' = Append(q, v)
-                     /\ cap' = IF Len(q) = cap THEN 2 * cap ELSE cap
-                     /\ last' = R("PushWithExpand", <<v>>, <<>>)
+\* PushWithExpand never fails: a full ring is given a larger capacity first (the code doubles it; the property only
+\* asks that content and order survive, so the new capacity c is a parameter: larger when full, unchanged otherwise).
+\* The capacity after the call is part of the observation.
+PushWithExpand(v, c) == /\ q' = Append(q, v)
+                        /\ IF Len(q) = cap THEN c > cap ELSE c = cap
+                        /\ cap' = c
+                        /\ last' = R("PushWithExpand", <<v>>, <<c>>)
+
+\* Bursts (what a producer / consumer loop does): PushN pushes b+1, b+2, ... b+k and reports how many were accepted,
+\* PopN pops up to k elements and reports them.  They are compositions of Push / Pop; traces of large rings use them
+\* to move the head deep into the buffer and to fill the ring without one event per element.
+Min(a, b) == IF a < b THEN a ELSE b
+PushN(k, b) == LET m == Min(k, cap - Len(q)) IN
+               /\ q' = q \o [i \in 1..m |-> b + i] /\ UNCHANGED cap
+               /\ last' = R("PushN", <<k, b>>, <<m>>)
+PopN(k) == LET m == Min(k, Len(q)) IN
+           /\ q' = SubSeq(q, m + 1, Len(q)) /\ UNCHANGED cap
+           /\ last' = R("PopN", <<k>>, SubSeq(q, 1, m))
 
 \* Recap succeeds exactly for positive capacities different from the current
 \* one and not below Len; content and order are preserved.
@@ -48,7 +62,8 @@ Recap(c) == /\ cap' = IF RecapOk(c) THEN c ELSE cap
 Query == /\ last' = R("Query", <<>>, <<Len(q), q = <<>>, Len(q) = cap, cap>>)
          /\ UNCHANGED <<q, cap>>
 
-Next == \/ \E v \in Vals : Push(v) \/ PushWithExpand(v)
+Next == \/ \E v \in Vals : Push(v) \/ \E c \in 1..MaxCap : PushWithExpand(v, c)
+        \/ \E k \in 0..MaxCap : PopN(k) \/ \E b \in Vals : PushN(k, 0 * b)
         \/ Pop \/ Peek \/ Query
         \/ \E c \in -1..MaxCap : Recap(c)
 
